@@ -355,7 +355,11 @@ kruskal_step = Unit(
     name="kruskal_step", file=BG_H, anchor=r"void basin_graph<FG>::compute_tree_kruskal\(\)",
     inner=r"for \(size_type edge_idx : m_edges_indices\)\s*\{",
     sig="void kruskal_step(%s, size_t edge_idx)" % KR_PARAMS,
-    pre=KR_PRE, rules=KR_VOCAB,
+    # `size_type* link = m_edges[edge_idx].link;` is an alias declaration: deleted, uses of the alias are replaced by the aliased member
+    # (m_edges is outside the write frame of the function, so the alias is stable)
+    pre=KR_PRE,
+    rules=[V(r"size_type\s*\*\s*link = m_edges\[edge_idx\]\.link;", "/* alias `link` replaced by the aliased member */"),
+           V(r"(?<![.\w])link\[", "m_edges[edge_idx].link[")] + KR_VOCAB,
     contract=KR_SHAPE + r"""
 __CPROVER_requires(uf_pn == nbasins && edge_idx < m_edges_n && EDGE_WF(edge_idx, nbasins))
 __CPROVER_requires(m_tree_n < m_tree_cap && GT < m_tree_cap)
@@ -664,7 +668,7 @@ def cb_pre(nb):
  * position is the index of the edge (current_basin, b), and b is recorded in m_edge_positions_tmp (slot CB_TSLOT[b]) so that the
  * next change of basin resets it */
 #define CB_INV_POS(b) (POS(b) == SIZE_MAX || (POS(b) < m_edges_n && m_edges[POS(b)].link[0] == current_basin && m_edges[POS(b)].link[1] == (b) \
-    && CB_TSLOT[(b)] < m_edge_positions_tmp_n && m_edge_positions_tmp[CB_TSLOT[(b)]] == (b)))
+    && m_edges[POS(b)].pass[0] != SIZE_MAX && CB_TSLOT[(b)] < m_edge_positions_tmp_n && m_edge_positions_tmp[CB_TSLOT[(b)]] == (b)))
 /* C15.connect: every stored edge is either a link root -> outer basin without a pass, or carries a pass whose elevation is
  * the larger elevation of its two pass nodes (second pass node lies in the second basin) */
 #define CB_EDGE_OK(e) (m_edges[(e)].link[1] < nbasins_ && (m_edges[(e)].pass[0] == SIZE_MAX \
@@ -754,7 +758,19 @@ cb_make_edge = Unit(
 )
 
 
-def make_cb_switch(nb):
+def make_cb_switch(nb, lemma=None):
+    """lemma None: full contract (reset of the position table at the ghost basin and at the caller's witness);
+    lemma "frame": only the frame and the two scalars (used by the `edge` chain, which does not speak about the position table)"""
+    full = lemma is None
+    pos_req = r"""
+/* instances of CB_INV_POS at the ghost basin and at the caller's witness */
+__CPROVER_requires(POS(GB) != SIZE_MAX ==> (CB_TSLOT[GB] < m_edge_positions_tmp_n && m_edge_positions_tmp[CB_TSLOT[GB]] == GB))
+__CPROVER_requires(POS(w) != SIZE_MAX ==> (CB_TSLOT[w] < m_edge_positions_tmp_n && m_edge_positions_tmp[CB_TSLOT[w]] == w))
+"""
+    pos_inv = r"""
+__CPROVER_loop_invariant(POS(GB) != SIZE_MAX ==> (t_ <= CB_TSLOT[GB] && CB_TSLOT[GB] < m_edge_positions_tmp_n && m_edge_positions_tmp[CB_TSLOT[GB]] == GB))
+__CPROVER_loop_invariant(POS(w) != SIZE_MAX ==> (t_ <= CB_TSLOT[w] && CB_TSLOT[w] < m_edge_positions_tmp_n && m_edge_positions_tmp[CB_TSLOT[w]] == w))
+"""
     return Unit(
         name="cb_switch", file=BG_H, anchor=CB_ANCHOR, inner=r"if \(current_basin != ibasin\)\s*\{",
         sig="void cb_switch(%s, size_t w)" % CB_PARAMS, defs=CB_DEFS, body_prefix=CB_LOCALS,
@@ -762,18 +778,15 @@ def make_cb_switch(nb):
                  "for (size_t t_ = 0; t_ < m_edge_positions_tmp_n; ++t_)\n{ const size_t ivisited = cb_tmp_rd(nbasins_, m_edge_positions_tmp, t_);", 1)] + CB_VOCAB,
         contract=CB_SHAPE + r"""
 __CPROVER_requires(m_edge_positions_n == nbasins_ && w < nbasins_)
-/* instances of CB_INV_POS at the ghost basin and at the caller's witness */
-__CPROVER_requires(POS(GB) != SIZE_MAX ==> (CB_TSLOT[GB] < m_edge_positions_tmp_n && m_edge_positions_tmp[CB_TSLOT[GB]] == GB))
-__CPROVER_requires(POS(w) != SIZE_MAX ==> (CB_TSLOT[w] < m_edge_positions_tmp_n && m_edge_positions_tmp[CB_TSLOT[w]] == w))
+""" + (pos_req if full else "") + r"""
 __CPROVER_assigns(__CPROVER_object_whole(m_edge_positions), m_edge_positions_tmp_n, current_basin)
 /* jumping to another basin forgets every edge position of the previous one */
-__CPROVER_ensures(POS(GB) == SIZE_MAX && POS(w) == SIZE_MAX && m_edge_positions_tmp_n == 0 && current_basin == ibasin)
-""",
+__CPROVER_ensures(%sm_edge_positions_tmp_n == 0 && current_basin == ibasin)
+""" % ("POS(GB) == SIZE_MAX && POS(w) == SIZE_MAX && " if full else ""),
         loops={0: r"""
 __CPROVER_assigns(t_, __CPROVER_object_whole(m_edge_positions))
 __CPROVER_loop_invariant(t_ <= m_edge_positions_tmp_n)
-__CPROVER_loop_invariant(POS(GB) != SIZE_MAX ==> (t_ <= CB_TSLOT[GB] && CB_TSLOT[GB] < m_edge_positions_tmp_n && m_edge_positions_tmp[CB_TSLOT[GB]] == GB))
-__CPROVER_loop_invariant(POS(w) != SIZE_MAX ==> (t_ <= CB_TSLOT[w] && CB_TSLOT[w] < m_edge_positions_tmp_n && m_edge_positions_tmp[CB_TSLOT[w]] == w))
+""" + (pos_inv if full else "") + r"""
 __CPROVER_decreases(m_edge_positions_tmp_n - t_)
 """})
 
@@ -785,8 +798,8 @@ CB_LEMMAS = {
 }
 def cb_state_req(lemma=None):
     """lemma chains are self-contained: the chain `pos` (switch, visit.pos, node.pos, loop.pos) only speaks about the edge-position table,
-    the chain `edge` only about stored edges and the root, `lowest` needs neither (it uses the table invariant at the read instance only)"""
-    ls = list(CB_LEMMAS) if lemma is None else ([lemma] if lemma in CB_LEMMAS else [])
+    the chain `edge` only about stored edges and the root, `lowest` (visit only) rests on the table invariant"""
+    ls = list(CB_LEMMAS) if lemma is None else ([lemma] if lemma in CB_LEMMAS else ["pos"])
     return ("\n__CPROVER_requires(m_edge_positions_n == nbasins_)\n" + "".join("__CPROVER_requires(%s)\n" % CB_LEMMAS[l] for l in ls))
 
 
@@ -822,7 +835,8 @@ def make_cb_visit(nb, lemma=None):
     return Unit(
         name="cb_visit", file=BG_H, anchor=CB_ANCHOR, inner=r"for \(auto n : grid\.neighbors\(idfs, neighbors\)\)\s*\{",
         sig="void cb_visit(%s, size_t idfs, double ielev, struct neighbor n)" % CB_PARAMS, defs=CB_DEFS, body_prefix=CB_LOCALS,
-        rules=[RB(r"if \(current_basin != ibasin\)", "{ cb_switch(%s, nbasin); }" % CB_ARGS),
+        # IH instance of the table invariant at the neighbour's basin, taken before any write of this iteration
+        rules=[RB(r"if \(current_basin != ibasin\)", "{ FSL_PRE(CB_INV_POS(nbasin)); cb_switch(%s, nbasin); }" % CB_ARGS),
                V(r"\bcontinue;", "return; /* `continue` of the outlined loop body */")] + CB_VOCAB,
         contract=CB_SHAPE + cb_state_req(lemma) + r"""
 __CPROVER_requires(idfs < gsize && n.idx < gsize && ibasin < nbasins_ && SAME_D(ielev, elevation[idfs]))
@@ -921,20 +935,25 @@ def cb_groups(nb, tier="quick"):
     what = {"pos": "the edge-position scratch table keeps its invariant (a defined position is the edge (current basin, b), recorded for reset)",
             "edge": "every stored edge is a root link or a pass with pass_elevation == max(elevation of its two pass nodes); root stays an outer basin",
             "lowest": "the edge of the basin pair exists afterwards with pass_elevation <= max(elevation of the pair just seen)"}
+    gs.append(Group(name="basin.connect.switch.frame", units=base + [make_cb_switch(nb, "frame")], extra_c=[MODEL_H], defines=defs,
+                    harness=_hcb("cb_switch", "cb_switch(%s, nondet_size_t())" % CB_ARGS, nb), entry="h_cb_switch", enforce="cb_switch",
+                    loop_contracts=True, backend="cvc5", timeout=600, min_obligations=20, tier=tier,
+                    clause="connect_basins, change of current basin, frame lemma: only the position table, the length of the visited list and "
+                           "current_basin are written; the list is emptied and current_basin becomes ibasin"))
     for l in ("pos", "edge", "lowest"):
-        gs.append(Group(name="basin.connect.visit.%s" % l, units=base + [sw, make_cb_visit(nb, l)], extra_c=[MODEL_H], defines=defs,
+        gs.append(Group(name="basin.connect.visit.%s" % l, units=base + [make_cb_switch(nb, "frame") if l == "edge" else sw, make_cb_visit(nb, l)], extra_c=[MODEL_H], defines=defs,
                         harness=_hcb("cb_visit", "cb_visit(%s, nondet_size_t(), nondet_double(), nn)" % CB_ARGS, nb), entry="h_cb_visit",
-                        enforce="cb_visit", replace=["cb_switch"], backend="cvc5", timeout=2400, min_obligations=50, tier="thorough",
+                        enforce="cb_visit", replace=["cb_switch"], backend="cvc5", timeout=3600, min_obligations=50, tier="thorough",
                         clause="connect_basins, one adjacent node pair, lemma `%s`: %s" % (l, what[l])))
     for l in ("pos", "edge"):
         gs.append(Group(name="basin.connect.node.%s" % l, units=base + [make_cb_visit(nb, l), make_cb_node(nb, l)], extra_c=[MODEL_H], defines=defs,
                         harness=_hcb("cb_node", "cb_node(%s, nondet_size_t())" % CB_ARGS, nb), entry="h_cb_node", enforce="cb_node",
-                        replace=["cb_visit", "grid_neighbors"], loop_contracts=True, backend="cvc5", timeout=2400, min_obligations=50, tier="thorough",
+                        replace=["cb_visit", "grid_neighbors"], loop_contracts=True, backend="cvc5", timeout=5400, min_obligations=50, tier="thorough",
                         clause="connect_basins, one node of the bottom-up order (neighbour scan closed by a loop contract), lemma `%s`: %s" % (l, what[l])))
         gs.append(Group(name="basin.connect.loop.%s" % l, units=base + [make_cb_node(nb, l), make_cb_outer(nb, l)], extra_c=[MODEL_H], defines=defs,
                         harness=_hcb("connect_basins", "connect_basins(%s)" % CB_ARGS, nb), entry="h_connect_basins", enforce="connect_basins",
-                        replace=["cb_node", "fsl_vsz_resize_b", "fsl_vsz_fill_b"], loop_contracts=True, backend="cvc5", timeout=2400,
-                        min_obligations=50, tier="thorough",
+                        replace=["cb_node", "fsl_vsz_resize_b", "fsl_vsz_fill_b"], loop_contracts=True, backend="cvc5", timeout=3600 if l == "edge" else 1200,
+                        min_obligations=50, tier="thorough" if l == "edge" else tier,
                         clause="connect_basins on ARBITRARY pre-state of m_root / m_edges / m_edge_positions(_tmp) (per-call reset, C09), lemma `%s`: %s"
                                % (l, what[l])))
     return gs
@@ -1046,9 +1065,10 @@ PROPS = {
             "uf_link(x, y, w1, w2) likewise; merge's linking block `if (x != y) {...}` is outlined as unit uf_link",
             "ghost update convention: operations that change the abstract partition (link, resize, push_back) write the witness ROOT'/DEPTH' by ghost code at "
             "the cells the postcondition inspects (existential postcondition `a consistent new ROOT assignment exists`); callers see ROOT/DEPTH in the frame",
-            "std::sort with the comparator lambda modelled by fsl_sort_edges (TRUSTED: std::sort sorts): output is a permutation of the input sorted by the "
-            "comparator, stated through ghost positions SP1, SP2 and the ghost edge KGE at position KPOS; the comparator lambda itself is extracted and proved "
-            "to be a strict weak order on non-NaN weights",
+            "std::sort with the comparator lambda modelled by fsl_sort_edges (TRUSTED: std::sort sorts): the contract states that the output is a "
+            "permutation of the input (every entry an edge index, pairwise distinct, ghost edge KGE at ghost position KPOS); the sortedness clause is "
+            "documented in the model but not stated as an ensures because no obligation consumes it (it only matters for minimality); the comparator "
+            "lambda itself is extracted and proved to be a strict weak order on non-NaN weights that orders by pass_elevation",
             "kruskal loop: reading m_edges_indices[k] instantiates the sort model's forall-postcondition `every entry is an edge index` and the input "
             "well-formedness `link[0], link[1] < basins_count()` of that edge (producer: connect_basins / compute_basins, C19)",
             "std::vector growth: buffers live at a ghost capacity; `length < capacity` at push_back is a precondition instance (model artefact: the real vector "
